@@ -51,10 +51,9 @@ open QV QV.Writer QV.ServerSafety
   never use `Standard` mode: the decoded message *equals* the abstract message; for `Disabled` mode
   alone also `C12_disabled_refinement`, proved from the octets), `C12_header_all_sequences` (what
   the header octets are). What separates these theorems from `C12_full` as a single statement: the
-  executable `checkSession` walks the reported statuses and compares each item with the mode in
-  effect *when it was written* (the theorems: exact equality when no `Standard` mode occurs in the
-  session, equality up to ASCII case otherwise), it also runs the pointer audit (that is C13,
-  `C13_holds`), and (d) is stated for finished messages of at most 65535 octets, i.e. for sessions
+  executable `checkSession` walks the reported statuses (justifying every failure), compares each
+  item with the mode in effect when it was written (that comparison is `C12_refinement_item_modes`)
+  and runs the pointer audit (that is C13, `C13_holds`), and (d) is stated for finished messages of at most 65535 octets, i.e. for sessions
   whose limits are at most 65535 (`C12_refinement_all_modes_dns_limits`; RDLENGTH is a 16-bit
   field, the writer itself accepts larger buffers). The driver evaluates `checkSession`
   itself on 100 % of the generated sessions (model column and, on the implementation's octets, spec
@@ -337,12 +336,12 @@ theorem C12_records_are_the_calls_all_modes (macFn : Tsig → List UInt8 → Lis
         ∀ it ∈ ian ++ ins ++ iar, it.m = mode ∨ Op.setMode it.m ∈ ops) := by
   intro out given
   have hI0 : I { s0 with mode := mode } := (safe_setMode mode s0 (new_i buf limit s0 hnew)).2
-  have hL0 : CLay (fun m => m = mode ∨ Op.setMode m ∈ ops) { s0 with mode := mode } {} :=
+  have hL0 : CLay (fun m => m = mode ∨ Op.setMode m ∈ ops) { s0 with mode := mode } {} {} :=
     clay_new buf limit s0 hnew mode (Or.inl rfl)
   have hI := (run_I { w := { s0 with mode := mode } } ops hI0 hr).2
-  have hL := clay_run { w := { s0 with mode := mode } } ops {} hI0 hL0 hr (fun m hm => Or.inr hm)
+  have hL := clay_run { w := { s0 with mode := mode } } ops {} {} hI0 hL0 hr (fun m hm => Or.inr hm)
   obtain ⟨m, mac, hf⟩ := finish_ok macFn hmac out.1.w hI
-  exact ⟨m, mac, hf, fun hsz => finish_decodes_content macFn out.1.w given hI hL m mac hf hsz⟩
+  exact ⟨m, mac, hf, fun hsz => finish_decodes_content macFn out.1.w given _ hI hL m mac hf hsz⟩
 
 /-! ### the RDATA of a record reads back, names inside it decompressed (every mode)
 
@@ -381,6 +380,9 @@ theorem C12_rdata_round_trip_all_modes (hint : Hint) (owner : WName) (ty cls ttl
   CLASS, TTL and every other RDATA octet as given. `ex` may be taken `True` whenever neither the
   initial mode nor any mode set during the session is `Standard`, and `False` always.
 
+  `C12_refinement_item_modes`: the same with every item compared in the mode in effect when it was
+  written (sessions that switch modes).
+
   `C12_refinement_all_modes_dns_limits`: no premise on the size when all limits are at most 65535.
 
   `C12_refinement_without_standard_mode`: with `ex = True`, the decoded message *equals* the abstract
@@ -415,6 +417,50 @@ theorem C12_refinement_without_standard_mode (macFn : Tsig → List UInt8 → Li
             optRecs (run { w := { s0 with mode := mode } } ops).1.w.edns ++
             tsigRecs (run { w := { s0 with mode := mode } } ops).1.w.tsig mac).map specR⟩) :=
   refines_exact macFn hmac buf limit s0 hnew mode ops ht hr hm0 hms
+
+/-- **item by item**: every question and record compared in the compression mode in effect when it
+    was written — octet for octet unless that mode was `Standard`, up to ASCII case if it was; the
+    OPT and TSIG records in the mode in effect at `finish`. This is the comparison the executable
+    specification makes (`checkSegment`, `itemModes`), also for sessions that switch between
+    `Standard` and the other modes. `mrun`: the mode of the writer when each successful call was
+    made; by `C12_modes_follow_the_calls` it is a function of the initial mode, the calls and their
+    results (`modesRun`: only `set_compression_mode` changes the mode). -/
+theorem C12_refinement_item_modes (macFn : Tsig → List UInt8 → List UInt8) (hmac : MacLenOK macFn)
+    (buf : Bytes) (limit : Nat) (s0 : State) (hnew : Writer.new buf limit = .ok s0) (mode : CMode)
+    (ops : List Op) (ht : ∀ op ∈ ops, op.Typed) (hr : Respects { w := { s0 with mode := mode } } ops) :
+    ∃ m mac, finish (run { w := { s0 with mode := mode } } ops).1.w macFn = .ok (m, mac) ∧ (m.size ≤ 65535 →
+      ∃ d : Spec.Message.Decoded, Spec.Message.specDecodeMsg m = some d ∧
+        d.msg.header = specHeader (run { w := { s0 with mode := mode } } ops).1.w.octets ∧
+        All2 (fun (x : CMode × QRec) dq => QuestionIs (x.1 ≠ .standard) x.2 dq)
+          ((mrun { w := { s0 with mode := mode } } {} ops).qs.zip
+            (bodyRun {} ops (run { w := { s0 with mode := mode } } ops).2).qs) d.msg.questions ∧
+        All2 (fun (x : CMode × RRec) dr => RecordIs (x.1 ≠ .standard) x.2 dr)
+          ((mrun { w := { s0 with mode := mode } } {} ops).an.zip
+            (bodyRun {} ops (run { w := { s0 with mode := mode } } ops).2).an) d.msg.answers ∧
+        All2 (fun (x : CMode × RRec) dr => RecordIs (x.1 ≠ .standard) x.2 dr)
+          ((mrun { w := { s0 with mode := mode } } {} ops).ns.zip
+            (bodyRun {} ops (run { w := { s0 with mode := mode } } ops).2).ns) d.msg.authorities ∧
+        All2 (fun (x : CMode × RRec) dr => RecordIs (x.1 ≠ .standard) x.2 dr)
+          (((mrun { w := { s0 with mode := mode } } {} ops).ar ++
+              (optRecs' (run { w := { s0 with mode := mode } } ops).1.w.edns).map
+                (fun _ => (run { w := { s0 with mode := mode } } ops).1.w.mode) ++
+              (tsigRecs (run { w := { s0 with mode := mode } } ops).1.w.tsig mac).map
+                (fun _ => (run { w := { s0 with mode := mode } } ops).1.w.mode)).zip
+            ((bodyRun {} ops (run { w := { s0 with mode := mode } } ops).2).ar ++
+              optRecs' (run { w := { s0 with mode := mode } } ops).1.w.edns ++
+              tsigRecs (run { w := { s0 with mode := mode } } ops).1.w.tsig mac)) d.msg.additionals) :=
+  refines_item_modes macFn hmac buf limit s0 hnew mode ops ht hr
+
+/-- the modes used in `C12_refinement_item_modes` do not depend on the model's state: only
+    `set_compression_mode` changes the writer's mode (`step_mode`) -/
+theorem C12_modes_follow_the_calls (buf : Bytes) (limit : Nat) (s0 : State)
+    (hnew : Writer.new buf limit = .ok s0) (mode : CMode) (ops : List Op)
+    (hr : Respects { w := { s0 with mode := mode } } ops) :
+    mrun { w := { s0 with mode := mode } } {} ops =
+        modesRun mode {} ops (run { w := { s0 with mode := mode } } ops).2 ∧
+      (run { w := { s0 with mode := mode } } ops).1.w.mode = ops.foldl modeAfter mode := by
+  have hI0 : I { s0 with mode := mode } := (safe_setMode mode s0 (new_i buf limit s0 hnew)).2
+  exact ⟨mrun_eq_modesRun _ ops {} hI0 hr, run_mode _ ops hI0 hr⟩
 
 /-- the same without a premise on the size of the message: when the limit given to `Writer::new`
     and every limit set later is at most 65535 (the largest DNS message), the finished message has
